@@ -39,7 +39,7 @@ COMPONENTS = {
 }
 PROBES = ["non_identity_order_with_per_atom_drive", "relabelled_register", "reinserted_register", "resume_under_non_identity_order", "dark_atoms_present", "slm_mask_present", "dmm_present", "pi_pulse_bitstring", "non_permutable_observable_safeguard", "real_optimiser_order", "user_initial_state"]
 ASSUMPTIONS = [
-    "comparison tolerance 2e-4 absolute on occupations / correlations / energies; workloads keep the order-dependent TDVP error orders of magnitude below it (bond dimension uncapped, precision 1e-8, E*dt <= 0.05) and a misdirected per-atom drive changes some occupation by >= 0.05",
+    "comparison tolerance 2e-4 absolute on occupations / correlations, 2e-4 x |H| on energies and 2e-4 x |H|^2 on energy second moment / variance (|H| = an upper bound on the energy scale computed from the scenario); workloads keep the order-dependent TDVP error orders of magnitude below it (bond dimension uncapped, precision 1e-8, E*dt <= 0.05) and a misdirected per-atom drive changes some occupation by >= 0.05",
     "bit strings are compared exactly only in the pi-pulse workload (deterministic outcome); elsewhere through the occupations of the same run",
 ]
 
@@ -175,7 +175,32 @@ def per_atom_spread(canon: dict) -> float:
     return s
 
 
-def compare_by_label(a: dict, b: dict, label_map: dict[str, str], tol: float) -> list[str]:
+def energy_scale(case: dict) -> float:
+    """Upper bound on |<H>| (rad/us) from the scenario: drives plus interactions."""
+    pts = [(a[1], a[2]) for a in case["scn"]["atoms"]]
+    n = len(pts)
+    u = 0.0
+    if case["cfg"].get("interaction_matrix") is None:
+        for i in range(n):
+            for j in range(i + 1, n):
+                u += 5420158.53 / max(1e-9, math.hypot(pts[i][0] - pts[j][0], pts[i][1] - pts[j][1])) ** 6
+    drive = 0.0
+    for o in case["scn"]["ops"]:
+        if o["op"] == "pulse":
+            vals = [abs(v) for w in (o["amp"], o["det"]) for v in ([w.get("v", 0.0), w.get("a", 0.0), w.get("b", 0.0)] + list(w.get("vals", [])))]
+            drive += max(vals or [0.0]) * 1.5
+        elif o["op"] == "dmm":
+            drive += abs(o["wave"].get("v", 0.0))
+    return max(1.0, n * drive + u)
+
+
+def tolerances(case: dict) -> dict:
+    """Energies scale with |H|, second moment and variance with |H|^2: the comparison tolerance is relative."""
+    h = energy_scale(case)
+    return {"energy": TOL * h, "energy_variance": TOL * h * h, "energy_second_moment": TOL * h * h}
+
+
+def compare_by_label(a: dict, b: dict, label_map: dict[str, str], tol: float, tol_by_tag: dict | None = None) -> list[str]:
     """b is the result for a relabelled / re-inserted register; label_map maps a-label -> b-label."""
     diffs: list[str] = []
     ia = {l: i for i, l in enumerate(a["atom_order"])}
@@ -194,7 +219,7 @@ def compare_by_label(a: dict, b: dict, label_map: dict[str, str], tol: float) ->
         if tag in a["tags"] and tag in b["tags"]:
             for (ta, va), (tb, vb) in zip(a["tags"][tag], b["tags"][tag]):
                 d = float(np.max(np.abs(np.asarray(va, dtype=float) - np.asarray(vb, dtype=float))))
-                if d > tol * 10:
+                if d > (tol_by_tag or {}).get(tag, tol * 10):
                     diffs.append(f"{tag}@{ta!r}: differs by {d:.3e} after relabelling")
                     break
     return diffs
@@ -215,6 +240,7 @@ def run_one(tape: Tape, tier: str, opts: dict) -> dict:
         labels = [a[0] for a in case["scn"]["atoms"]]
         desc = {"kind": kind, "atoms": case["scn"]["atoms"], "ops": case["scn"]["ops"], "dmm": case["scn"]["dmm"], "slm": case["scn"]["slm"], "dt": case["cfg"]["dt"], "T": case["T"], "noise": case["cfg"].get("noise"), "initial_bits": case["extra"].get("initial_bits"), "observables": [o["kind"] for o in case["cfg"]["observables"]]}
         ident = list(range(n))
+        tolt = tolerances(case)
         ref = run_under(world, case, seeds, ident)
         evals += 1
         if ref.error is not None:
@@ -258,7 +284,7 @@ def run_one(tape: Tape, tier: str, opts: dict) -> dict:
             if out.error is not None:
                 V.append({"clause": "C03.run-raised", "site": f"{site}|{out.error_site}", "msg": f"run under internal order {plist} raised {out.error!r} although the identity order runs :: {desc}"})
                 continue
-            d = R.compare(ref.results, out.results, tol=TOL, skip_counters=True)
+            d = R.compare(ref.results, out.results, tol=TOL, skip_counters=True, tol_by_tag=tolt)
             maxdisc = max(maxdisc, _maxdiff(ref.results, out.results))
             if d:
                 V.append({"clause": "C03.order-changes-results", "site": kind, "msg": f"internal order {plist} changes the results: {d[:3]} (identity-order occupations {R.summarize(ref.results)['tags'].get('occupation')}, this order {R.summarize(out.results)['tags'].get('occupation')}) :: {desc}"})
@@ -279,7 +305,7 @@ def run_one(tape: Tape, tier: str, opts: dict) -> dict:
                     if rs.error is not None:
                         V.append({"clause": "C03.resume-raised", "site": rs.error_site or "?", "msg": f"resume under internal order {plist} raised {rs.error!r} :: {desc}"})
                     else:
-                        d = R.compare(ref.results, rs.results, tol=TOL, skip_counters=True)
+                        d = R.compare(ref.results, rs.results, tol=TOL, skip_counters=True, tol_by_tag=tolt)
                         if d:
                             V.append({"clause": "C03.order-changes-results-after-resume", "site": kind, "msg": f"resumed run under internal order {plist} differs from the identity-order run: {d[:3]} :: {desc}"})
         # ---- relabelling / re-insertion of the register (identity internal order and a random one)
@@ -311,7 +337,7 @@ def run_one(tape: Tape, tier: str, opts: dict) -> dict:
                 if tuple(out2.results["atom_order"]) != exp_order:
                     V.append({"clause": "C03.atom-order", "site": "relabel", "msg": f"atom_order {out2.results['atom_order']} != register order {exp_order} :: {desc}"})
                 else:
-                    d2 = compare_by_label(ref.results, out2.results, newlab, TOL)
+                    d2 = compare_by_label(ref.results, out2.results, newlab, TOL, tolt)
                     if d2:
                         V.append({"clause": "C03.relabelling-changes-results", "site": kind, "msg": f"re-inserting the register as {scn2['atoms']} (internal order {perm2}) changes per-label results: {d2[:3]} :: {desc}"})
         # ---- safeguard: an observable that cannot be un-permuted must switch reordering off
@@ -329,7 +355,7 @@ def run_one(tape: Tape, tier: str, opts: dict) -> dict:
                 V.append({"clause": "C03.run-raised", "site": f"safeguard|{out3.error_site}", "msg": f"run with {extra_obs} raised {out3.error!r} :: {desc}"})
             else:
                 nperm = len(world.log.of_kind("perm")) - nperm_before
-                d3 = R.compare(ref.results, {**out3.results, "tags": {k: v for k, v in out3.results["tags"].items() if k in ref.results["tags"]}}, tol=TOL, skip_counters=True)
+                d3 = R.compare(ref.results, {**out3.results, "tags": {k: v for k, v in out3.results["tags"].items() if k in ref.results["tags"]}}, tol=TOL, skip_counters=True, tol_by_tag=tolt)
                 if d3:
                     V.append({"clause": "C03.safeguard", "site": extra_obs, "msg": f"with the non-permutable observable {extra_obs} requested (reordering must be off) results differ from the identity-order run: {d3[:3]}; the optimiser was consulted {nperm} times :: {desc}"})
         return {
